@@ -49,9 +49,9 @@ func init() {
 		Exhaustive:  func(t core.Tier) bool { return t == core.Thorough },
 		Plan: func(tier core.Tier, seed int64) int {
 			if tier == core.Thorough {
-				return c05SetCases + c05EdgeCases*20 + 60000 + c05LinkedCases*20
+				return c05SetCases + c05EdgeCases*20 + 60000 + c05LinkedCases*20 + c06SymCases*4
 			}
-			return c05SetCases + c05EdgeCases + 480 + c05LinkedCases
+			return c05SetCases + c05EdgeCases + 480 + c05LinkedCases + c06SymCases/2
 		},
 		Run: func(c *core.Ctx, idx int) {
 			r := c.Rand()
@@ -60,6 +60,15 @@ func init() {
 				nEdge *= 20
 			}
 			if nHist := map[bool]int{false: 480, true: 60000}[c.Tier == core.Thorough]; idx >= c05SetCases+nEdge+nHist {
+				nLinked := c05LinkedCases
+				if c.Tier == core.Thorough {
+					nLinked *= 20
+				}
+				if idx >= c05SetCases+nEdge+nHist+nLinked {
+					// link collections inside one store (one symbol on both sides, or two fields of the store)
+					c06Symmetric(c, idx-c05SetCases-nEdge-nHist-nLinked)
+					return
+				}
 				c05Linked(c, idx-c05SetCases-nEdge-nHist)
 				return
 			}
